@@ -1,16 +1,266 @@
-"""Replay of verifier counterexamples against the real code (filled in below)."""
+"""Replay of verifier counterexamples against the real code.
+
+Kani: the failing harness is re-run alone with `--concrete-playback=print`; the byte
+vectors of its `kani::any()` calls are then fed to the *same harness compiled
+natively* in the scratch copy (`--cfg verif_replay`): the contract modules are
+compiled under `cfg(any(kani, verif_replay))`, `kani::any/assume/cover!` resolve to
+a shim that pops the recorded bytes, and - because `kani::stub` attributes only
+exist under cfg(kani) - every stubbed function runs its REAL body (the real
+`Number::convert` with the real HashMap table, the real `epsilon()`...). A native
+panic / failed assertion is the replayed violation. When the harness draws values
+inside a stub (nondeterministic contracts) the recorded sequence cannot be
+aligned: the replay then reports `desync` and the violation line ends with
+`no-failing-input-found`.
+
+Verus gives no model: the replay file carries the failed obligation and the
+verifier's message only.
+"""
 import json
 import os
 import re
 import time
 
-from .common import VERIF, write_json
+from .common import VERIF, run, write_json, log
 
 REPLAY_DIR = os.path.join(VERIF, "replay", "out")
 
+SHIM = r'''
+// ===== appended by /verif for native replay (cfg(verif_replay) only) =====
+#[cfg(verif_replay)]
+#[allow(dead_code, unused_macros, unused_imports)]
+pub(crate) mod verif_replay_shim {
+    use std::cell::RefCell;
+    use std::collections::VecDeque;
+    thread_local! {
+        pub static QUEUE: RefCell<VecDeque<Vec<u8>>> = RefCell::new(VecDeque::new());
+        pub static LOG: RefCell<Vec<String>> = RefCell::new(Vec::new());
+    }
+    pub struct AssumptionViolated;
+    pub struct Desync(pub &'static str);
+    fn pop(n: usize, what: &'static str) -> [u8; 16] {
+        let v = QUEUE.with(|q| q.borrow_mut().pop_front());
+        match v {
+            Some(v) if v.len() == n => {
+                let mut b = [0u8; 16];
+                b[..n].copy_from_slice(&v);
+                b
+            }
+            Some(_) => std::panic::panic_any(Desync(what)),
+            None => std::panic::panic_any(Desync("recorded values exhausted")),
+        }
+    }
+    pub trait ReplayAny: Sized {
+        fn replay() -> Self;
+    }
+    macro_rules! int_any {
+        ($($t:ty),*) => {$(
+            impl ReplayAny for $t {
+                fn replay() -> Self {
+                    const N: usize = std::mem::size_of::<$t>();
+                    let b = pop(N, stringify!($t));
+                    let mut a = [0u8; N];
+                    a.copy_from_slice(&b[..N]);
+                    let v = <$t>::from_le_bytes(a);
+                    LOG.with(|l| l.borrow_mut().push(format!("any::<{}>() = {:?}", stringify!($t), v)));
+                    v
+                }
+            }
+        )*};
+    }
+    int_any!(u8, u16, u32, u64, u128, usize, i8, i16, i32, i64, i128, isize, f32, f64);
+    impl ReplayAny for bool {
+        fn replay() -> Self {
+            let b = pop(1, "bool");
+            let v = b[0] != 0;
+            LOG.with(|l| l.borrow_mut().push(format!("any::<bool>() = {}", v)));
+            v
+        }
+    }
+    impl ReplayAny for char {
+        fn replay() -> Self {
+            let b = pop(4, "char");
+            let u = u32::from_le_bytes([b[0], b[1], b[2], b[3]]);
+            match char::from_u32(u) {
+                Some(c) => {
+                    LOG.with(|l| l.borrow_mut().push(format!("any::<char>() = {:?}", c)));
+                    c
+                }
+                None => std::panic::panic_any(AssumptionViolated),
+            }
+        }
+    }
+    pub fn any<T: ReplayAny>() -> T {
+        T::replay()
+    }
+    pub fn assume(c: bool) {
+        if !c {
+            std::panic::panic_any(AssumptionViolated);
+        }
+    }
+    macro_rules! __verif_cover {
+        ($($t:tt)*) => {};
+    }
+    pub(crate) use __verif_cover as cover;
+}
 
-def kani_counterexample(scratch, ob, res, hto):
-    return {"reproduced": False, "why": "native replay not implemented yet"}
+#[cfg(verif_replay)]
+#[doc(hidden)]
+pub fn verif_replay_run(name: &str, vals: Vec<Vec<u8>>) -> i32 {
+    use verif_replay_shim::*;
+    QUEUE.with(|q| *q.borrow_mut() = vals.into_iter().collect());
+    std::panic::set_hook(Box::new(|info| {
+        let msg = if let Some(s) = info.payload().downcast_ref::<&str>() {
+            s.to_string()
+        } else if let Some(s) = info.payload().downcast_ref::<String>() {
+            s.clone()
+        } else {
+            String::new()
+        };
+        if !msg.is_empty() {
+            eprintln!("REPLAY-PANIC-MESSAGE: {} @ {}", msg.replace('\n', " "), info.location().map(|l| format!("{}:{}", l.file(), l.line())).unwrap_or_default());
+        }
+    }));
+    let name_owned = name.to_owned();
+    let r = std::panic::catch_unwind(move || verif_replay_dispatch(&name_owned));
+    LOG.with(|l| {
+        for line in l.borrow().iter() {
+            println!("REPLAY-INPUT: {}", line);
+        }
+    });
+    let left = QUEUE.with(|q| q.borrow().len());
+    match r {
+        Ok(true) => {
+            println!("REPLAY-RESULT: completed without failure (unconsumed values: {})", left);
+            0
+        }
+        Ok(false) => {
+            println!("REPLAY-RESULT: unknown harness");
+            3
+        }
+        Err(e) => {
+            if e.downcast_ref::<AssumptionViolated>().is_some() {
+                println!("REPLAY-RESULT: assumption violated natively (counterexample does not satisfy the harness precondition)");
+                4
+            } else if let Some(d) = e.downcast_ref::<Desync>() {
+                println!("REPLAY-RESULT: desync ({})", d.0);
+                5
+            } else {
+                println!("REPLAY-RESULT: FAILED natively (panic / assertion in the real code or the contract)");
+                1
+            }
+        }
+    }
+}
+'''
+
+EXAMPLE = r'''
+// generated by /verif: native replay driver
+fn main() {
+    let mut args = std::env::args().skip(1);
+    let name = args.next().expect("harness name");
+    let spec = args.next().unwrap_or_default();
+    let mut vals: Vec<Vec<u8>> = Vec::new();
+    for part in spec.split(';') {
+        if part.is_empty() {
+            continue;
+        }
+        vals.push(part.split(',').filter(|x| !x.is_empty()).map(|x| x.parse::<u8>().unwrap()).collect());
+    }
+    std::process::exit(grass_compiler::verif_replay_run(&name, vals));
+}
+'''
+
+
+def module_path_of(target):
+    """crates/compiler/src/a/b.rs -> crate::a::b ; a/mod.rs -> crate::a ; lib.rs -> crate"""
+    rel = target.split("/src/", 1)[1]
+    rel = rel[:-3]
+    parts = rel.split("/")
+    if parts[-1] in ("mod", "lib"):
+        parts = parts[:-1]
+    return "crate" + "".join("::" + p for p in parts)
+
+
+def prepare_native(scratch, files):
+    """Append shim + dispatcher to lib.rs and write the example runner. `files`: injected ContractFile list."""
+    lib = os.path.join(scratch, "crates", "compiler", "src", "lib.rs")
+    # harness modules live in private modules of the crate; they export one unmangled
+    # trampoline per harness (see kani.inject) which the dispatcher reaches by symbol
+    arms = []
+    decls = []
+    for c in files:
+        for ob in c.obligations:
+            decls.append("    fn verif_replay__%s();" % ob["harness"])
+            arms.append('        "%s" => { unsafe { verif_replay__%s() }; true }' % (ob["harness"], ob["harness"]))
+    disp = "\n#[cfg(verif_replay)]\nextern \"Rust\" {\n%s\n}\n#[cfg(verif_replay)]\nfn verif_replay_dispatch(name: &str) -> bool {\n    match name {\n%s\n        _ => false,\n    }\n}\n" % ("\n".join(decls), ",\n".join(arms))
+    with open(lib, "a") as f:
+        f.write(SHIM)
+        f.write(disp)
+    exd = os.path.join(scratch, "crates", "compiler", "examples")
+    os.makedirs(exd, exist_ok=True)
+    with open(os.path.join(exd, "verif_replay.rs"), "w") as f:
+        f.write(EXAMPLE)
+
+
+def build_native(scratch):
+    env = {"RUSTFLAGS": "--cfg verif_replay -C debug-assertions=off -A warnings", "CARGO_TARGET_DIR": os.path.join(scratch, "target-native")}
+    rc, out, secs, to = run(["cargo", "build", "--offline", "-p", "grass_compiler", "--example", "verif_replay"], cwd=scratch, env=env, timeout=900)
+    exe = os.path.join(scratch, "target-native", "debug", "examples", "verif_replay")
+    if rc != 0 or not os.path.exists(exe):
+        return None, out[-1500:]
+    return exe, ""
+
+
+def parse_playback(out):
+    """Kani prints one generated test per failed check AND per satisfied cover; return the byte vectors of each, in order."""
+    tests = []
+    for m in re.finditer(r"let concrete_vals: Vec<Vec<u8>> = vec!\[(.*?)\n\s*\];", out, re.S):
+        vals = []
+        for vm in re.finditer(r"vec!\[([0-9,\s]*)\]", m.group(1)):
+            nums = [x.strip() for x in vm.group(1).split(",") if x.strip()]
+            vals.append([int(x) for x in nums])
+        if vals not in tests:
+            tests.append(vals)
+    return tests
+
+
+def kani_counterexample(scratch, ob, res, hto, native_exe_cb):
+    """Re-run the failed harness for concrete counterexamples and replay them natively until one fails."""
+    from . import kani as K
+
+    info = {"reproduced": False}
+    cmd = ["cargo", "kani"] + K.KANI_FLAGS + ["-Z", "concrete-playback", "--concrete-playback=print", "-Z", "unstable-options", "--no-default-checks", "--harness-timeout", "%ds" % hto, "--harness", ob["harness"]]
+    rc, out, secs, to = run(cmd, cwd=os.path.join(scratch, "crates", "compiler"), timeout=hto + 600)
+    tests = parse_playback(out)
+    if not tests:
+        # harnesses without symbolic input (concrete loops): run the harness natively as it is
+        tests = [[]]
+        info["note"] = "harness has no symbolic input: replay = native execution of the harness"
+    exe, err = native_exe_cb()
+    if exe is None:
+        info["why"] = "native replay build failed: " + err[-400:]
+        return info
+    attempts = []
+    for vals in tests[:12]:
+        spec = ";".join(",".join(str(b) for b in v) for v in vals)
+        rc, rout, secs, to = run([exe, ob["harness"], spec], cwd=scratch, timeout=120)
+        rm = re.search(r"REPLAY-RESULT: (.*)", rout)
+        a = {
+            "counterexample_bytes": vals,
+            "inputs": re.findall(r"REPLAY-INPUT: (.*)", rout),
+            "native_panic": re.findall(r"REPLAY-PANIC-MESSAGE: (.*)", rout),
+            "native_result": rm.group(1) if rm else ("native run did not return within 120 s" if to else "no result (rc=%s): %s" % (rc, rout[-300:])),
+        }
+        failed = bool(rm and "FAILED natively" in rm.group(1)) or to
+        attempts.append(a)
+        if failed:
+            info.update(a)
+            info["reproduced"] = True
+            break
+    if not info["reproduced"]:
+        info["native_result"] = "; ".join(sorted(set(a["native_result"] for a in attempts)))
+        info["attempts"] = attempts
+    return info
 
 
 def write_replay_file(prop, ob_id, r):
@@ -23,12 +273,14 @@ def write_replay_file(prop, ob_id, r):
             "failed_obligation": ob_id,
             "engine": r.get("engine"),
             "kind": r.get("kind"),
+            "harness": r.get("harness"),
             "functions": r.get("fns"),
             "what_the_obligation_states": r.get("desc"),
             "failed_checks": r.get("failed_checks"),
             "sites": r.get("sites"),
             "replay": r.get("replay"),
             "verifier_output": r.get("verifier_output"),
+            "how_to_rerun": "bin/check %s   (re-verifies the obligation on /repo's current tree; the native replay above was produced by feeding the recorded kani::any() values to the same harness compiled with --cfg verif_replay)" % prop,
             "written": time.strftime("%Y-%m-%dT%H:%M:%S"),
         },
     )
@@ -37,5 +289,14 @@ def write_replay_file(prop, ob_id, r):
 
 def replay_file(path):
     d = json.load(open(path))
-    print(json.dumps(d, indent=1)[:6000])
+    print("failed obligation:", d.get("failed_obligation"))
+    print("states:", d.get("what_the_obligation_states"))
+    rp = d.get("replay") or {}
+    for line in rp.get("inputs", []) or []:
+        print("  input:", line)
+    for line in rp.get("native_panic", []) or []:
+        print("  native panic:", line)
+    print("native result:", rp.get("native_result"))
+    print("--- verifier output ---")
+    print((d.get("verifier_output") or "")[:4000])
     return 0
